@@ -856,6 +856,36 @@ func fsKill(h *fsHarness, p *prng, rounds int) {
 			if _, err := os.Stat(hh.dir); err != nil {
 				continue // killed before this sink wrote anything
 			}
+			// the write(2) that was under way when the process was killed may have been cut short (the kernel
+			// checks for a fatal signal between pages): a fragment of the event in flight -- never acknowledged
+			// -- at the very end of the file being written says nothing against the sink. A fragment of an
+			// ACKNOWLEDGED event does.
+			ackedSet := map[int]bool{}
+			for _, a := range acked {
+				ackedSet[a] = true
+			}
+			if ents, err := os.ReadDir(hh.dir); err == nil {
+				for _, e := range ents {
+					path := filepath.Join(hh.dir, e.Name())
+					data, rerr := os.ReadFile(path)
+					if rerr != nil || len(data) == 0 || data[len(data)-1] == '\n' {
+						continue
+					}
+					cut := bytes.LastIndexByte(data, '\n') + 1
+					frag := string(data[cut:])
+					id, known := 0, false
+					if strings.HasPrefix(frag, "e") {
+						if i := strings.IndexByte(frag, ':'); i > 1 {
+							id, known = atoi(frag[1:i]), true
+						}
+					}
+					if known && ackedSet[id] {
+						continue // left for the oracle below
+					}
+					os.Truncate(path, int64(cut))
+					h.st.hit("kill:torn-tail-of-the-event-in-flight")
+				}
+			}
 			fs, bad := hh.list()
 			if bad != "" {
 				h.oracle("C08 after SIGKILL: %s", bad)
